@@ -156,7 +156,7 @@ PROPS = {
     'C16': dict(
         title='Proof compression is lossless and verification-equivalent',
         design_ref='DESIGN.md section 4 / C16',
-        bounded=[('plonky2', ['c16_'])],
+        bounded=[('plonky2', ['c16_', 'c17_all'])],
         vspecs=['contracts/C16/path_compression.vspec'],
         level_text='Unbounded deductive proof (Verus/Z3) that compress_merkle_proofs keeps every `known[..]` access in bounds for all index multisets and heights '
                    'and returns, per input path, a SUBSEQUENCE of that path\'s siblings (nothing invented or reordered). Losslessness of the whole '
